@@ -20,6 +20,7 @@ pub mod c14;
 pub mod c15;
 pub mod c16;
 pub mod c17;
+pub mod sanit;
 
 pub fn run(ctx: &mut Ctx) -> bool {
     match ctx.id.as_str() {
@@ -40,6 +41,8 @@ pub fn run(ctx: &mut Ctx) -> bool {
         "C15" => c15::run(ctx),
         "C16" => c16::run(ctx),
         "C17" => c17::run(ctx),
+        "SANIT" => sanit::run(ctx),
+        "SANIT-GEN" => sanit::run_gen(ctx),
         _ => return false,
     }
     true
